@@ -32,6 +32,9 @@ type Case struct {
 	Asserted string           `json:"asserted"`
 	Shim     bool             `json:"shim_open"`
 	Fields   []vh.HeaderField `json:"fields"`
+	// Path: path of a plain request ("" = /c09/<token>); the alternatives share a string prefix with the shim path
+	// without lying under it, or look like shim endpoints elsewhere
+	Path string `json:"path,omitempty"`
 }
 
 var (
@@ -46,6 +49,9 @@ func genCase(t *rapid.T) Case {
 	c.Asserted = rapid.SampledFrom(asserted).Draw(t, "asserted")
 	if c.Config&4 != 0 {
 		c.Shim = rapid.Bool().Draw(t, "shimOpen")
+	}
+	if !c.Shim && rapid.IntRange(0, 2).Draw(t, "oddPath") == 0 {
+		c.Path = rapid.SampledFrom([]string{"/shimx/TOK", "/shim.js", "/shim-status/TOK", "/shimapi/v1/data", "/x/shim/open", "/Shim/open", "/poll", "/data", "/open"}).Draw(t, "path")
 	}
 	nid := rapid.SampledFrom([]int{0, 1, 1, 2, 3}).Draw(t, "nid")
 	for i := 0; i < nid; i++ {
@@ -234,7 +240,11 @@ func runCase(t vh.TB, c *Case) vh.Outcome {
 		body := "ws://whatever.example/ws/" + tok
 		wire = fmt.Sprintf("POST /shim/open HTTP/1.1\r\nHost: c09.example\r\n%s: %s\r\nX-Websocket-Shim-Version: 1\r\n%sContent-Length: %d\r\n\r\n%s", vh.TokenHeader, tok, hdr.String(), len(body), body)
 	} else {
-		wire = fmt.Sprintf("GET /c09/%s HTTP/1.1\r\nHost: c09.example\r\n%s: %s\r\n%s\r\n", tok, vh.TokenHeader, tok, hdr.String())
+		path := "/c09/" + tok
+		if c.Path != "" {
+			path = strings.ReplaceAll(c.Path, "TOK", tok)
+		}
+		wire = fmt.Sprintf("GET %s HTTP/1.1\r\nHost: c09.example\r\n%s: %s\r\n%s\r\n", path, vh.TokenHeader, tok, hdr.String())
 	}
 	method := "GET"
 	if c.Shim {
